@@ -5,8 +5,9 @@ import (
 	"go/ast"
 	"go/token"
 	"go/types"
-	"golang.org/x/tools/go/ssa"
 	"strings"
+
+	"golang.org/x/tools/go/ssa"
 )
 
 func init() {
@@ -28,34 +29,6 @@ func checkC15(r *Run) {
 	cursorOwnershipRule(r, "R5")
 	statementTokenRule(r, "R6")
 	messageOrderRule(r, "R7")
-}
-
-// linePrefixed: e is fmt.Sprintf(format, X.LineNumber, ...) with a constant
-// format starting "line %d:".
-func linePrefixedSprintf(info *types.Info, e ast.Expr) (ok bool, why string) {
-	c, isCall := unparen(e).(*ast.CallExpr)
-	if !isCall || !funcIs(calleeOf(info, c), "fmt", "Sprintf") || len(c.Args) < 2 {
-		return false, "not a fmt.Sprintf with operands"
-	}
-	f, isConst := constString(info, c.Args[0])
-	if !isConst {
-		return false, "format is not constant"
-	}
-	if !strings.HasPrefix(f, "line %d:") {
-		return false, fmt.Sprintf("format %q does not start with \"line %%d:\"", f)
-	}
-	if !isLineNumberExpr(info, c.Args[1], nil) {
-		return false, "the first operand is not a token's LineNumber"
-	}
-	return true, ""
-}
-
-// isLineNumberExpr: X.LineNumber, or a local assigned once from such.
-func isLineNumberExpr(info *types.Info, e ast.Expr, body ast.Node) bool {
-	if _, fld := fieldOf(info, e); fld != nil && fld.Name() == "LineNumber" {
-		return true
-	}
-	return false
 }
 
 // errRecorder describes a parser method that records an error message built
@@ -377,70 +350,6 @@ func parserMessagesRule(r *Run, rule string) {
 	}
 }
 
-func localFromLineNumber(info *types.Info, f *FuncInfo, o types.Object) bool {
-	n, good := 0, false
-	inspectBody(f.Decl.Body, false, func(m ast.Node) bool {
-		if s, ok := m.(*ast.AssignStmt); ok {
-			for i, l := range s.Lhs {
-				if objOf(info, l) == o && i < len(s.Rhs) {
-					n++
-					if _, fld := fieldOf(info, s.Rhs[i]); fld != nil && fld.Name() == "LineNumber" {
-						good = true
-					}
-				}
-			}
-		}
-		return true
-	})
-	return n == 1 && good
-}
-
-func evaluatorExitRule(r *Run, rule string) {
-	w := r.W
-	f := w.topLevelEval()
-	if f == nil {
-		r.Lost(rule, "top-level evaluator")
-		return
-	}
-	info := f.Pkg.TypesInfo
-	n := 0
-	for _, ret := range returnsIn(f.Decl.Body) {
-		if len(ret.Results) != 2 || isNilIdent(info, ret.Results[1]) {
-			continue
-		}
-		n++
-		con := "error exit " + short(w.Fset, ret.Results[1])
-		c, ok := unparen(ret.Results[1]).(*ast.CallExpr)
-		if !ok || !funcIs(calleeOf(info, c), "fmt", "Errorf") || len(c.Args) != 3 {
-			r.Bad(rule, f.Name(), con, w.Pos(ret.Pos()), "the runtime error exit must be fmt.Errorf(\"line %d: %w\", <line>, err)")
-			continue
-		}
-		format, _ := constString(info, c.Args[0])
-		verbs := formatVerbs(format)
-		lineOK := false
-		// <stmt>.T().LineNumber
-		if x, fld := fieldOf(info, c.Args[1]); fld != nil && fld.Name() == "LineNumber" {
-			if tc, ok := unparen(x).(*ast.CallExpr); ok {
-				if sel, ok := unparen(tc.Fun).(*ast.SelectorExpr); ok && sel.Sel.Name == "T" {
-					if tv, ok := info.Types[sel.X]; ok && namedIs(tv.Type, astPath, "Statement") {
-						lineOK = true
-					}
-				}
-			}
-		}
-		errOK := isErrorType(info.Types[c.Args[2]].Type)
-		if strings.HasPrefix(format, "line %d:") && len(verbs) == 2 && verbs[0] == 'd' && verbs[1] == 'w' && lineOK && errOK {
-			r.Ok(rule, f.Name(), con, w.Pos(ret.Pos()), "line prefix from the statement's token, error wrapped with %w")
-		} else {
-			r.Bad(rule, f.Name(), con, w.Pos(ret.Pos()), "the runtime error exit must be fmt.Errorf(\"line %d: %w\", <statement>.T().LineNumber, err)")
-		}
-	}
-	if n != 1 {
-		r.Bad(rule, f.Name(), fmt.Sprintf("%d error exits", n), w.Pos(f.Decl.Pos()), "the top-level evaluator must have exactly one error exit, the line-prefixed one")
-	}
-	// Exec / Render pass the error through unchanged: checked by C05.R1 (returned as is)
-}
-
 func curStmtRule(r *Run, rule string) {
 	w := r.W
 	cur := w.compilerField("curStmt")
@@ -545,99 +454,6 @@ func curStmtRule(r *Run, rule string) {
 				}
 			}
 		}
-	}
-}
-
-func isRangeValueOf(info *types.Info, w *World, n ast.Node, e ast.Expr) bool {
-	for p := w.Parent(n); p != nil; p = w.Parent(p) {
-		if rs, ok := p.(*ast.RangeStmt); ok {
-			return rs.Value != nil && objOf(info, rs.Value) == objOf(info, e) && objOf(info, e) != nil
-		}
-	}
-	return false
-}
-
-func tokenLineRule(r *Run, rule string) {
-	w := r.W
-	m := analyseLexerArms(w)
-	if len(m.problems) > 0 || m.insideTk == nil || m.nextTok == nil {
-		r.Lost(rule, "lexer model: "+strings.Join(m.problems, "; "))
-		return
-	}
-	fn := m.insideTk.Name()
-	for _, a := range m.arms {
-		for _, p := range a.paths {
-			pos := p.pos
-			if !pos.IsValid() {
-				pos = a.clause.Pos()
-			}
-			con := a.label + " exit " + p.exit
-			if p.tokTypeOK {
-				con = a.label + " -> " + p.tokType + " exit " + p.exit
-			}
-			if p.lineSet {
-				r.Ok(rule, fn, con, w.Pos(pos), "LineNumber assigned on this path")
-			} else {
-				r.Bad(rule, fn, con+" without LineNumber", w.Pos(pos), "a token leaves the lexer without its line: errors about it would say 'line 0'")
-			}
-		}
-	}
-	// the outer token function
-	f := m.nextTok
-	for _, ret := range returnsIn(f.Decl.Body) {
-		if len(ret.Results) != 1 {
-			continue
-		}
-		con := "return " + short(w.Fset, ret.Results[0])
-		if c, ok := unparen(ret.Results[0]).(*ast.CallExpr); ok && calleeOf(m.info, c) == m.insideTk.Obj {
-			r.Ok(rule, f.Name(), con, w.Pos(ret.Pos()), "delegates to the inside-tag token function")
-			continue
-		}
-		o := objOf(m.info, ret.Results[0])
-		set := false
-		if blk, ok := w.Parent(ret).(*ast.BlockStmt); ok && o != nil {
-			for _, st := range blk.List {
-				if st == ast.Stmt(ret) {
-					break
-				}
-				if as, ok := st.(*ast.AssignStmt); ok {
-					for _, l := range as.Lhs {
-						if x, fld := fieldOf(m.info, l); fld != nil && fld.Name() == "LineNumber" && objOf(m.info, x) == o {
-							set = true
-						}
-					}
-				}
-			}
-		}
-		if set {
-			r.Ok(rule, f.Name(), con, w.Pos(ret.Pos()), "LineNumber assigned in the same block")
-		} else {
-			r.Bad(rule, f.Name(), con+" without LineNumber", w.Pos(ret.Pos()), "a token leaves the lexer without its line")
-		}
-	}
-	// the stamp is the lexer's line counter
-	for _, ff := range m.methods {
-		inspectBody(ff.Decl.Body, false, func(n ast.Node) bool {
-			var val ast.Expr
-			switch x := n.(type) {
-			case *ast.KeyValueExpr:
-				if k, _ := x.Key.(*ast.Ident); k != nil && k.Name == "LineNumber" {
-					val = x.Value
-				}
-			case *ast.AssignStmt:
-				for i, l := range x.Lhs {
-					if _, fld := fieldOf(m.info, l); fld != nil && fld.Name() == "LineNumber" && i < len(x.Rhs) {
-						val = x.Rhs[i]
-					}
-				}
-			}
-			if val != nil {
-				if _, fld := fieldOf(m.info, val); fld == nil || fld != m.line {
-					r.Bad(rule, ff.Name(), "LineNumber = "+short(w.Fset, val), w.Pos(val.Pos()), "a token's line must be the lexer's line counter at that moment")
-				}
-			}
-			return true
-		})
 	}
 }
 
